@@ -31,6 +31,9 @@ CLAIMED = {
  "C09": ("exploration", "model-based PBT: generated iterator call sequences compared call by call with a model iterator",
          "Generated snapshot shapes (single/many segments, tombstones first/last/consecutive, lower level present/exhausted/only source; collection, child and store snapshots), generated bounds (nil, non-nil empty, equal, inverted, sharing prefixes, neighbours of keys) and call sequences of Next/SeekTo/Current incl. backward seeks and seeks after exhaustion; after every call the return value, key and value must equal a model iterator's. " + NOTE_SCHED,
          "5.C09"),
+ "C14": ("exploration", "differential + model-based PBT: the same persisted directory read under generated key-index settings",
+         "Generated key sets (empty key, shared prefixes, variable lengths) persisted as 1-3 segments and optionally fully compacted; a copy of the directory is opened with the index off (defaults) and with generated quota / minimum-key-bytes settings spanning hop = 1..n and truncated indexes; every present key, neighbours, below-first / above-last and generated probes are read by Get, and ranges [p,nil), [nil,p), [p,q) are iterated; all must equal the reference under every setting.",
+         "5.C14"),
  "C20": ("exploration", "model-based PBT: Stats() sampled at every quiescent step, implication checked against the lower level's own snapshot and a reopened copy",
          "Histories incl. child-only and delete-only batches over mossStore and an application lower level; whenever the three dirty gauges are zero the lower level must equal the full reference (and a copy of the directory must reopen to it); after the last batch the gauges must reach zero within 6 controller cycles. " + NOTE_SCHED,
          "5.C20"),
